@@ -21,7 +21,12 @@ pub open spec fn strip_us(s: Seq<char>) -> Seq<char> decreases s.len() { if s.le
 // from_str_radix panics when the radix is not in 2..=36 -- R8
 #[verifier::external_body] pub fn i128_from_str_radix(s: &Vec<char>, radix: u32) -> (r: Result<i128, VErr>) requires 2 <= radix <= 36 { unimplemented!() }
 #[verifier::external_body] pub fn u8_from_str_radix(s: &Vec<char>, radix: u32) -> (r: Result<u8, VErr>) requires 2 <= radix <= 36 { unimplemented!() }
-#[verifier::external_body] pub fn i128_to_string(x: i128) -> (r: Vec<char>) { unimplemented!() }
+// the integer a decimal numeral denotes (uninterpreted)
+pub uninterp spec fn val(s: Seq<char>) -> int;
+#[verifier::external_body] pub fn i128_to_string(x: i128) -> (r: Vec<char>) ensures val(r@) == x { unimplemented!() }
+// str::parse::<i32>().is_ok() on a numeral made of digits: the value fits
+#[verifier::external_body] pub fn parse_i32_ok(s: &Vec<char>) -> (r: bool) ensures r == (i32::MIN <= val(s@) <= i32::MAX) { unimplemented!() }
+#[verifier::external_body] pub fn i32_try_from_ok(x: i128) -> (r: bool) ensures r == (i32::MIN <= x <= i32::MAX) { unimplemented!() }
 #[verifier::external_body] pub fn u8_to_string(x: u8) -> (r: Vec<char>) { unimplemented!() }
 #[verifier::external_body] pub fn parse_usize(s: &Vec<char>) -> (r: Result<usize, VErr>) { unimplemented!() }
 #[verifier::external_body] pub fn to_owned_chars(s: Vec<char>) -> (r: Vec<char>) ensures r@ == s@ { unimplemented!() }
@@ -58,6 +63,8 @@ def build(repo):
         Rule("R5", "Number :: Byte ( $$e ? . to_string ( ) , )", "Number :: Byte ( u8_to_string ( $$e ? ) )", why="integer to_string"),
         Rule("R5", "Number :: Byte ( $$e . vexpect ( ) . to_string ( ) , )", "Number :: Byte ( u8_to_string ( vexpect_u8 ( $$e ) ) )", why="expect: a panic unless Ok (R8)"),
         Rule("R5", "as_hex . to_string ( )", "i128_to_string ( as_hex )", why="integer to_string"),
+        Rule("R5", "as_str . parse :: < i32 > ( ) . is_ok ( )", "parse_i32_ok ( & as_str )", why="str::parse::<i32>: succeeds exactly when the numeral's value fits"),
+        Rule("R5", "i32 :: try_from ( as_hex ) . is_ok ( )", "i32_try_from_ok ( as_hex )", why="i32::try_from(i128): succeeds exactly when the value fits"),
         Rule("R1", "no_prefix . to_owned ( )", "to_owned_chars ( no_prefix )", why="&str::to_owned"),
         Rule("R1", "float_of_int . to_owned ( )", "to_owned_chars ( float_of_int )", why="&str::to_owned"),
         Rule("R9", "as_str . strip_suffix ( [ 'F' , 'f' ] )", "strip_suffix_f ( & as_str )", why="str::strip_suffix"),
@@ -76,8 +83,13 @@ def build(repo):
     bb = translate(fb["body"], [Rule("R1", "Self :: Open { .. }", "ListType :: Open { .. }"), Rule("R1", "Self :: Mixed", "ListType :: Mixed")], log, "ListType::upper_bound")
     gen = header(log, f"{NUM}: number_from_string, TryFrom<&Number> for usize; {LIST}: ListType::upper_bound") + SPEC + f"""
 //@ OBL C16.nopanic.number_from_string
+//@ OBL C02.literal.kind
 pub fn number_from_string(string: &Vec<char>, rule: Rule) -> (r: Result<Number, VErr>)
     requires lexical_shape(rule, string@)
+    ensures
+        // C02: a literal of kind int denotes a value an int can hold (a larger one is a bigint) -- `make_int` fails on anything else,
+        // and the static type of the literal is read off this kind
+        r is Ok && r->Ok_0 is Integer ==> i32::MIN <= val(r->Ok_0->Integer_0@) <= i32::MAX,
 {{
 {txt}
 }}
@@ -101,6 +113,7 @@ fn main() {{}}
 """
     obls = [
         Obl("C16.nopanic.number_from_string", ["C16"], fn="number_from_string", desc="number_from_string: no slice index, radix or expect panic for any text the number rules can match"),
+        Obl("C02.literal.kind", ["C02", "C06"], fn="number_from_string", desc="number_from_string: a literal is given kind int only when its value fits an int (otherwise bigint), so its static type, its folded value and its make_int agree"),
         Obl("C16.nopanic.number_to_usize", ["C16"], fn="number_try_into_usize", desc="TryFrom<&Number> for usize: no unreachable! for any number literal (incl. floats)"),
         Obl("C16.nopanic.upper_bound", ["C16"], fn="ListType::upper_bound", desc="ListType::upper_bound: `len() - 1` cannot underflow"),
     ]
